@@ -297,6 +297,9 @@ def shard(seed, idx, n, tier):
         one_case(rng, res)
     for _ in range(max(3, n // 4)):
         dir_uri_case(rng, res)
+    from harness import clicall       # which library call in-toto-match-products makes (model InToto/CliCall.lean)
+    for _ in range(max(4, n // 2)):
+        clicall.one_other(rng, res, "match_products")
     return res
 
 
